@@ -3,6 +3,7 @@ package props
 import (
 	"encoding/json"
 	"fmt"
+	"math"
 	"reflect"
 	"sort"
 	"strings"
@@ -223,6 +224,27 @@ func checkC10(c *gramCase, b *gram.Built, r *vstat.Run) outcome {
 
 func TestC10(t *testing.T) {
 	runProp(t, "C10", c10Rule, func(t *rapid.T, r *vstat.Run) {
+		if rapid.IntRange(0, 11).Draw(t, "proot") == 0 {
+			// the root production is user code that takes whatever tokens the parser hands it
+			g := &gram.Grammar{Lookahead: 1}
+			if rapid.IntRange(0, 3).Draw(t, "profile") == 0 {
+				g.Profile = "scanner"
+			}
+			es := g.Prof().ElideSets
+			g.Elide = es[rapid.IntRange(0, len(es)-1).Draw(t, "elideset")]
+			for i := 0; i < 4; i++ {
+				var toks []gram.VTok
+				for j, n := 0, rapid.IntRange(0, 6).Draw(t, "ntoks"); j < n; j++ {
+					toks = append(toks, rapid.SampledFrom(g.Prof().Vocab).Draw(t, "tok"))
+				}
+				c := &gramCase{G: g, PRoot: true, Input: gram.Render(t, g, toks, "a"), Input2: gram.Render(t, g, toks, "b")}
+				if rapid.IntRange(0, 3).Draw(t, "minimal") == 0 {
+					c.Input2 = gram.RenderMinimal(g, toks)
+				}
+				report(t, r, checkC10PRoot(c, r), c)
+			}
+			return
+		}
 		named := rapid.IntRange(0, 99).Draw(t, "named") < 15
 		o := gram.GenOpts{MaxProds: 4, MaxDepth: 4, TrapPercent: 20, NameElided: named, Profiles: true, Parseables: true}
 		g := gram.GenGrammar(t, o)
@@ -257,12 +279,51 @@ func TestC10(t *testing.T) {
 	})
 }
 
+// checkC10PRoot: a root production implemented by user code sees the non-elided tokens, however the input is spaced.
+func checkC10PRoot(c *gramCase, r *vstat.Run) outcome {
+	p, err := gram.BuildPRoot(c.G)
+	if err != nil {
+		return violationf("build", "Build of a Parseable root failed: %v", err)
+	}
+	var a1, a2 *gram.PRoot
+	var e1, e2 error
+	if pm := guard(func() {
+		a1, e1 = p.ParseString("f", c.Input)
+		a2, e2 = p.ParseString("f", c.Input2)
+	}); pm != "" {
+		return violationf("panic", "Parseable root: %s", pm)
+	}
+	if r != nil {
+		r.Eval()
+		r.Count("parseable_root_cases")
+		r.NonTrivial(mustJSON(c), func() any { return c })
+	}
+	if e1 != nil || e2 != nil {
+		return violationf("acceptance", "a root production that accepts every token stream: %q -> %v ; %q -> %v (elide %v, lexer %q)", c.Input, e1, c.Input2, e2, c.G.Elide, c.G.Profile)
+	}
+	if strings.Join(a1.Vals, "\x00") != strings.Join(a2.Vals, "\x00") {
+		return violationf("ast", "a Parseable root saw different tokens for two spacings of the same tokens: %q -> %q ; %q -> %q (elide %v)", c.Input, a1.Vals, c.Input2, a2.Vals, c.G.Elide)
+	}
+	return outcome{}
+}
+
 func TestC10Replay(t *testing.T) {
-	replayGram(t, "C10", func(c *gramCase, b *gram.Built) outcome {
-		if c.Input2 == "" {
-			return checkC01(c, b, nil)
+	replayAll(t, "C10", func(raw json.RawMessage) outcome {
+		var c gramCase
+		if err := json.Unmarshal(raw, &c); err != nil {
+			return violationf("harness", "bad replay: %v", err)
 		}
-		return checkC10(c, b, nil)
+		if c.PRoot {
+			return checkC10PRoot(&c, nil)
+		}
+		b, msg := buildGrammar(c.G)
+		if msg != "" {
+			return violationf("build", "%s", msg)
+		}
+		if c.Input2 == "" {
+			return checkC01(&c, b, nil)
+		}
+		return checkC10(&c, b, nil)
 	})
 }
 
@@ -493,11 +554,12 @@ func TestC11Replay(t *testing.T) {
 // C13: more lookahead never changes a successful parse
 
 const c13Rule = "generated grammars without ~ / (?= ) / (?! ) x sampled and mutated inputs, each parsed by parsers built over the same " +
-	"AST types with every lookahead of the ladder 0<1<2<3<5<MaxLookahead<unlimited; oracle (metamorphic): success at k implies success " +
+	"AST types with every lookahead of the ladder 0<1<2<3<5<MaxLookahead<unlimited (-1, -2, MinInt); oracle (metamorphic): success at k implies success " +
 	"at every larger k' with a deeply equal AST; non-trivial = the outcome differs somewhere along the ladder, or the input is accepted " +
 	"at every k although the reference parser abandoned >=1 attempt; distinct by SHA-256 of (grammar, input)"
 
-var c13Ladder = []int{0, 1, 2, 3, 5, participle.MaxLookahead, -1}
+// every negative value means unlimited lookahead
+var c13Ladder = []int{0, 1, 2, 3, 5, participle.MaxLookahead, -1, -2, math.MinInt}
 
 type c13Parsers struct {
 	g  *gram.Grammar
